@@ -242,3 +242,46 @@ def rewrite_for_iter(body, counts, specs):
         body = body[:st] + new + body[bc + 1:]
         counts['R1'] = counts.get('R1', 0) + 1
     return body
+
+
+def rewrite_array_patterns(body, counts):
+    """R11: `let [p0, p1, _, ..] = EXPR;`  ->  `let arrN = EXPR; let p0 = arrN[0]; let p1 = arrN[1]; ...`  (slice patterns)"""
+    n = [0]
+
+    def rep(m):
+        n[0] += 1
+        counts['R11'] = counts.get('R11', 0) + 1
+        pats = [p.strip() for p in m.group(1).split(',')]
+        a = f"arr{n[0]}_"
+        out = f"let {a} = {m.group(2).strip()};"
+        for i, p in enumerate(pats):
+            if p and p != '_':
+                out += f" let {p} = {a}[{i}];"
+        return out
+    return re.sub(r'let\s*\[([^\]]*)\]\s*=\s*([^;]+);', rep, body)
+
+
+def rewrite_for_slice(body, counts):
+    """R4: `for PAT in &ARR[..] { B }` (B without break/continue)  ->  index loop over 0..ARR.len()"""
+    k = [0]
+    while True:
+        src = Source(body)
+        m = None
+        for mm in re.finditer(r'\bfor\s+([A-Za-z_]\w*)\s+in\s+&([A-Za-z_][A-Za-z0-9_:]*)\[\.\.\]\s*\{', body):
+            if src.mask[mm.start()]:
+                m = mm
+                break
+        if not m:
+            return body
+        bo = m.end() - 1
+        bc = src.match_close(bo)
+        inner = body[bo + 1:bc]
+        if re.search(r'\b(break|continue)\b', inner):
+            raise Unsupported("slice loop with break/continue")
+        k[0] += 1
+        i = f"idx{k[0]}_"
+        arr = m.group(2)
+        new = (f"let mut {i}: usize = 0; while {i} < {arr}.len()\n    invariant {i} <= {arr}.len()\n    decreases {arr}.len() - {i}\n"
+               f"{{ let {m.group(1)} = &{arr}[{i}]; {inner} {i} += 1; }};")
+        body = body[:m.start()] + new + body[bc + 1:]
+        counts['R4'] = counts.get('R4', 0) + 1
